@@ -11,7 +11,16 @@ def sh(cmd, **kw):
 
 
 def main():
-    ids = sys.argv[1:] or sorted(os.listdir(os.path.join(HERE, 'seeded')))
+    global REPO
+    args = sys.argv[1:]
+    copy = '--copy' in args          # work on a scratch copy of /repo (when other jobs are using /repo); removed afterwards
+    args = [a for a in args if a != '--copy']
+    env = dict(os.environ)
+    if copy:
+        REPO = '/tmp/priv_recheck'
+        sh('rm -rf %s && cp -r /repo %s' % (REPO, REPO))
+        env.update(PYGAM_REPO=REPO, PYTHONPATH='%s:%s' % (HERE, REPO), OMP_NUM_THREADS='1', OPENBLAS_NUM_THREADS='1', MKL_NUM_THREADS='1')
+    ids = args or sorted(os.listdir(os.path.join(HERE, 'seeded')))
     if sh('git -C %s status --porcelain --untracked-files=no' % REPO).stdout.strip():
         print('refusing: %s is not clean' % REPO)
         return 2
@@ -32,7 +41,7 @@ def main():
         try:
             got = []
             for c in checks[:1]:
-                r = sh('./check %s --tier quick --no-build' % c, cwd=HERE)
+                r = sh(('/venv/bin/python -m harness.main %s --tier quick --no-build' if copy else './check %s --tier quick --no-build') % c, cwd=HERE, env=env)
                 v = [l for l in r.stdout.splitlines() if l.startswith('VIOLATION')]
                 got.append((c, r.returncode, v[0] if v else ''))
         finally:
@@ -42,6 +51,8 @@ def main():
         if not ok:
             missed.append(i)
     print('missed:', missed)
+    if copy:
+        sh('rm -rf %s' % REPO)
     return 1 if missed else 0
 
 
